@@ -31,8 +31,8 @@ def main():
     fws = source_on_fractions()
     out = []
     for c in P["cases"]:
-        y = np.array(c["y"], dtype="float64")
-        w = np.array(c["w"], dtype="float64")
+        y = np.array(c["y"], dtype=c.get("ydtype", "float64"))     # the library itself hands int16 series to ws2d
+        w = np.array(c["w"], dtype=c.get("wdtype", "float64"))
         lam = float(c["lam"])
         rec = {}
         try:
